@@ -49,51 +49,118 @@ theorem nextMultipleOf_ok {a b c : Nat} (hb : 0 < b) (h : nextMultipleOf a b = .
     · cases h; exact (roundUp_of_mod_pos hb h0).symm
     · cases h
 
-/-- the member loop body of the pinned source -/
+theorem addU32?_ok {a b c : Nat} (h : addU32? a b = .ok c) : c = a + b := by
+  unfold addU32? at h; split at h
+  · cases h; rfl
+  · cases h
+
+theorem addU32?_succeeds {a b : Nat} (h : a + b ≤ u32Max) : addU32? a b = .ok (a + b) := by
+  unfold addU32?; simp only [h, if_true]
+
+theorem mulU32?_ok {a b c : Nat} (h : mulU32? a b = .ok c) : c = a * b := by
+  unfold mulU32? at h; split at h
+  · cases h; rfl
+  · cases h
+
+/-- `checked_next_multiple_of(..)?` that did not return: the divisor is positive, the result is the rounded value -/
+theorem nextMultipleOf?_ok {a b c : Nat} (h : nextMultipleOf? a b = .ok c) : 0 < b ∧ c = roundUp a b := by
+  unfold nextMultipleOf? at h
+  split at h
+  · cases h
+  · rename_i hb
+    have hb' : 0 < b := by omega
+    refine ⟨hb', ?_⟩
+    split at h
+    · rename_i h0; cases h; exact (roundUp_of_mod_zero hb' h0).symm
+    · rename_i h0
+      have := addU32?_ok h
+      rw [this]; exact (roundUp_of_mod_pos hb' h0).symm
+
+theorem nextMultipleOf?_succeeds {a b : Nat} (hb : 0 < b) (h : roundUp a b ≤ u32Max) :
+    nextMultipleOf? a b = .ok (roundUp a b) := by
+  unfold nextMultipleOf?
+  have hb' : b ≠ 0 := by omega
+  simp only [hb', if_false]
+  by_cases h0 : a % b = 0
+  · simp only [h0, if_true]; rw [roundUp_of_mod_zero hb h0]
+  · simp only [h0, if_false]
+    rw [roundUp_of_mod_pos hb h0] at h ⊢
+    exact addU32?_succeeds h
+
+/-- the checked forms never panic -/
+theorem nextMultipleOf?_no_panic {a b : Nat} {msg : String} : nextMultipleOf? a b ≠ .error (.panic msg) := by
+  unfold nextMultipleOf? addU32?
+  split
+  · simp
+  · split
+    · simp
+    · split <;> simp
+
+theorem addU32?_no_panic {a b : Nat} {msg : String} : addU32? a b ≠ .error (.panic msg) := by
+  unfold addU32?; split <;> simp
+
+theorem mulU32?_no_panic {a b : Nat} {msg : String} : mulU32? a b ≠ .error (.panic msg) := by
+  unfold mulU32?; split <;> simp
+
+/-- the member loop body of the pinned source (`checked_next_multiple_of(..)?`, `checked_add(..)?`, `max`) -/
 def memberStep (acc ml : Layout) : Except Err Layout :=
-  match nextMultipleOf acc.size ml.align with
+  match nextMultipleOf? acc.size ml.align with
   | .error e => .error e
   | .ok z =>
-    match addU32 z ml.size with
+    match addU32? z ml.size with
     | .error e => .error e
     | .ok z' => .ok ⟨z', max acc.align ml.align⟩
 
 theorem member_ops_pinned (m : Mode) (acc ml : Layout) :
-    runLay (structMemberOps m) ⟨acc, 0, ml, 0⟩ = memberStep acc ml := by
+    runLay (structMemberOps m) ⟨acc, 0, ml, 0, 0⟩ = memberStep acc ml := by
   cases m <;>
   · simp only [structMemberOps, runLay, runOps, step, memberStep]
-    cases nextMultipleOf acc.size ml.align with
+    cases nextMultipleOf? acc.size ml.align with
     | error e => rfl
     | ok z =>
       simp only []
-      cases addU32 z ml.size with
+      cases addU32? z ml.size with
       | error e => rfl
       | ok z' => rfl
 
-theorem final_ops_pinned (m : Mode) (l : Layout) :
-    runLay (structFinalOps m) ⟨l, 0, l, 0⟩ =
-      match nextMultipleOf l.size l.align with
-      | .ok z => .ok ⟨z, l.align⟩
+/-- what the tail of the Struct arm makes of the rounded size `z` of a struct with `k` members -/
+def emptyFix (m : Mode) (k z : Nat) : Nat :=
+  match m with
+  | .hlsl => z
+  | .metal => if k = 0 then 1 else z
+
+theorem final_ops_pinned (m : Mode) (l : Layout) (k : Nat) :
+    runLay (structFinalOps m) ⟨l, 0, l, 0, k⟩ =
+      match nextMultipleOf? l.size l.align with
+      | .ok z => .ok ⟨emptyFix m k z, l.align⟩
       | .error e => .error e := by
-  cases m <;>
-  · simp only [structFinalOps, runLay, runOps, step]
-    cases nextMultipleOf l.size l.align <;> rfl
+  cases m
+  · simp only [structFinalOps, runLay, runOps, step, emptyFix]
+    cases nextMultipleOf? l.size l.align <;> rfl
+  · simp only [structFinalOps, runLay, runOps, step, emptyFix]
+    cases nextMultipleOf? l.size l.align with
+    | error e => rfl
+    | ok z =>
+      simp only []
+      by_cases hk : k = 0
+      · simp only [hk, if_true]
+      · simp only [hk, if_false]
 
 theorem array_ops_pinned (m : Mode) (l : Layout) (n : Nat) :
-    runLay (arrayOps m) ⟨l, 0, l, n⟩ =
+    runLay (arrayOps m) ⟨l, 0, l, n, 0⟩ =
       if n ≤ u32Max then
-        match mulU32 l.size n with
+        match mulU32? l.size n with
         | .ok z => .ok ⟨z, l.align⟩
         | .error e => .error e
-      else .error (.panic "called `Result::unwrap()` on an `Err` value: TryFromIntError(())") := by
+      else .error .unknown := by
   cases m <;>
   · simp only [arrayOps, runLay, runOps, step]
     by_cases hn : n ≤ u32Max
-    · simp only [hn, if_true]; cases mulU32 l.size n <;> rfl
+    · simp only [hn, if_true]; cases mulU32? l.size n <;> rfl
     · simp only [hn, if_false]
 
 theorem top_ops_pinned (m : Mode) (l : Layout) :
-    runLay (checkTopOps m) ⟨l, 0, l, 0⟩ =
+    runLay (checkTopOps m) ⟨l, 0, l, 0, 0⟩ =
       match nextMultipleOf l.size l.align with
       | .ok z => .ok ⟨z, l.align⟩
       | .error e => .error e := by
@@ -101,20 +168,18 @@ theorem top_ops_pinned (m : Mode) (l : Layout) :
   · simp only [checkTopOps, runLay, runOps, step]
     cases nextMultipleOf l.size l.align <;> rfl
 
-theorem memberStep_ok {acc ml l : Layout} (ha : 0 < ml.align) (h : memberStep acc ml = .ok l) :
-    l.size = roundUp acc.size ml.align + ml.size ∧ l.align = max acc.align ml.align := by
+theorem memberStep_ok {acc ml l : Layout} (h : memberStep acc ml = .ok l) :
+    0 < ml.align ∧ l.size = roundUp acc.size ml.align + ml.size ∧ l.align = max acc.align ml.align := by
   unfold memberStep at h
   split at h
   · cases h
   · rename_i z hz
-    have := nextMultipleOf_ok ha hz
-    unfold addU32 at h
+    obtain ⟨hp, this⟩ := nextMultipleOf?_ok hz
     split at h
     · cases h
     · rename_i z' hz'
-      split at hz'
-      · cases hz'; cases h; subst this; exact ⟨rfl, rfl⟩
-      · cases hz'
+      have := addU32?_ok hz'
+      cases h; subst_vars; exact ⟨hp, rfl, rfl⟩
 
 /-- vectors of the grid never panic and get exactly the reference size and alignment -/
 theorem get_vec (m : Mode) (s : Scalar) (n : Nat) (hs : sized s = true) (hn : 1 ≤ n ∧ n ≤ 4) :
@@ -171,7 +236,10 @@ theorem size_mod_align (m : Mode) : ∀ t : Ty, wf t = true → size m t % align
   | .arr t n, _ => by
     simp only [size, align]
     rw [Nat.mul_mod, roundUp_mod]; simp
-  | .struct ms, _ => by simp only [size, align]; exact roundUp_mod
+  | .struct ms, _ => by
+    cases ms with
+    | nil => simp only [size, align, alignMax]; exact Nat.mod_one _
+    | cons t ts => simp only [size, align]; exact roundUp_mod
   | .enum u, _ => by simp [size, align]
   | .other _, h => by simp [wf] at h
 
@@ -198,11 +266,14 @@ theorem leaf_le_size (m : Mode) : ∀ t : Ty, wf t = true → leaf t ≤ size m 
     simp only [leaf, size]
     exact Nat.mul_le_mul_left _ (Nat.le_trans (leaf_le_size m t h) (le_roundUp (align_pos m t h)))
   | .struct ms, h => by
-    simp only [wf, Bool.and_eq_true] at h
-    simp only [leaf, size]
-    have := leafAll_le_endOf m ms 0 h.2
-    have := @le_roundUp (endOf m ms 0) (alignMax m ms) (alignMax_pos m ms)
-    omega
+    simp only [wf] at h
+    cases ms with
+    | nil => simp [leaf, leafAll]
+    | cons t ts =>
+      simp only [leaf, size]
+      have := leafAll_le_endOf m (.cons t ts) 0 h
+      have := @le_roundUp (endOf m (.cons t ts) 0) (alignMax m (.cons t ts)) (alignMax_pos m _)
+      omega
 theorem leafAll_le_endOf (m : Mode) : ∀ (ts : Tys) (c : Nat), wfAll ts = true →
     c + leafAll ts ≤ endOf m ts c
   | .nil, c, _ => by simp [leafAll, endOf]
@@ -249,10 +320,13 @@ theorem vectorFree_same : ∀ t : Ty, vectorFree t = true →
     simp only [align, size, agreeIn, stride, a, s, g]
     simp
   | .struct ms, h => by
-    simp only [vectorFree] at h
-    obtain ⟨a, e, o, g⟩ := vectorFreeAll_same ms h
-    simp only [align, size, agreeIn, a, e 0, o 0, g]
-    simp
+    cases ms with
+    | nil => simp [vectorFree] at h
+    | cons t ts =>
+      simp only [vectorFree, Bool.true_and] at h
+      obtain ⟨a, e, o, g⟩ := vectorFreeAll_same (.cons t ts) h
+      simp only [align, size, agreeIn, a, e 0, o 0, g]
+      simp
 theorem vectorFreeAll_same : ∀ ts : Tys, vectorFreeAll ts = true →
     alignMax .hlsl ts = alignMax .metal ts ∧ (∀ c, endOf .hlsl ts c = endOf .metal ts c) ∧
     (∀ c, offsets .hlsl ts c = offsets .metal ts c) ∧ agreeInAll ts = true
@@ -319,44 +393,96 @@ theorem memberStep_succeeds {acc ml : Layout} (ha : 0 < ml.align)
     (h : roundUp acc.size ml.align + ml.size ≤ u32Max) :
     memberStep acc ml = .ok ⟨roundUp acc.size ml.align + ml.size, max acc.align ml.align⟩ := by
   unfold memberStep
-  rw [nextMultipleOf_succeeds ha (by omega)]
-  simp only [addU32, h, if_true]
-
-mutual
-theorem leaf_pos : ∀ t : Ty, wf t = true → 0 < leaf t
-  | .scalar s, h => by simp only [wf] at h; simpa [leaf] using bytes_pos h
-  | .enum u, h => by
-    simp only [wf] at h
-    cases u <;> first | (exact absurd h (by decide)) | (simp [leaf, bytes])
-  | .other _, h => by simp [wf] at h
-  | .vec s n, h => by
-    simp only [wf, Bool.and_eq_true, decide_eq_true_eq] at h
-    simp only [leaf]
-    exact Nat.mul_pos (by omega) (bytes_pos h.1)
-  | .arr t n, h => by
-    simp only [wf, Bool.and_eq_true, decide_eq_true_eq] at h
-    simp only [leaf]
-    exact Nat.mul_pos (by omega) (leaf_pos t h.2)
-  | .struct ms, h => by
-    simp only [wf, Bool.and_eq_true] at h
-    simp only [leaf]
-    cases ms with
-    | nil => simp at h
-    | cons t ts =>
-      simp only [wfAll, Bool.and_eq_true] at h
-      simp only [leafAll]
-      have := leaf_pos t h.2.1
-      omega
-end
+  rw [nextMultipleOf?_succeeds ha (by omega)]
+  simp only [addU32?, h, if_true]
 
 theorem le_endOf (m : Mode) (ts : Tys) (c : Nat) (h : wfAll ts = true) : c ≤ endOf m ts c := by
   have := leafAll_le_endOf m ts c h; omega
+
+/-- in Metal every type of the grid occupies at least one byte (an empty struct too) -/
+theorem metal_size_pos : ∀ t : Ty, wf t = true → 0 < size .metal t
+  | .scalar s, h => by simp only [wf] at h; simpa [size] using bytes_pos h
+  | .enum u, h => by
+    simp only [wf] at h
+    cases u <;> first | (exact absurd h (by decide)) | (simp [size, bytes])
+  | .other _, h => by simp [wf] at h
+  | .vec s n, h => by
+    simp only [wf, Bool.and_eq_true, decide_eq_true_eq] at h
+    simp only [size, vecSize]
+    have := metalLanes_ge n
+    exact Nat.mul_pos (by omega) (bytes_pos h.1)
+  | .arr t n, h => by
+    simp only [wf, Bool.and_eq_true, decide_eq_true_eq] at h
+    simp only [size]
+    have h1 := metal_size_pos t h.2
+    have h2 := @le_roundUp (size .metal t) (align .metal t) (align_pos .metal t h.2)
+    exact Nat.mul_pos (by omega) (by omega)
+  | .struct ms, h => by
+    simp only [wf] at h
+    cases ms with
+    | nil => simp [size, emptySize]
+    | cons t ts =>
+      simp only [wfAll, Bool.and_eq_true] at h
+      simp only [size]
+      have h1 := metal_size_pos t h.1
+      have h2 := le_endOf .metal ts (roundUp 0 (align .metal t) + size .metal t) h.2
+      have h3 := @le_roundUp (endOf .metal (.cons t ts) 0) (alignMax .metal (.cons t ts)) (alignMax_pos _ _)
+      simp only [endOf] at h3 ⊢
+      omega
+
+mutual
+/-- a type whose Metal size fits `u32` has array lengths that fit `u32` (every element occupies a byte there) -/
+theorem lengthsFit_of_metal : ∀ t : Ty, wf t = true → size .metal t ≤ u32Max → lengthsFit t = true
+  | .scalar _, _, _ => rfl
+  | .vec _ _, _, _ => rfl
+  | .enum _, _, _ => rfl
+  | .other _, _, _ => rfl
+  | .arr t n, hw, hb => by
+    simp only [wf, Bool.and_eq_true, decide_eq_true_eq] at hw
+    simp only [size] at hb
+    have h1 := metal_size_pos t hw.2
+    have h2 := @le_roundUp (size .metal t) (align .metal t) (align_pos .metal t hw.2)
+    have h3 : n * 1 ≤ n * roundUp (size .metal t) (align .metal t) := Nat.mul_le_mul_left _ (by omega)
+    have h4 : 1 * roundUp (size .metal t) (align .metal t) ≤ n * roundUp (size .metal t) (align .metal t) :=
+      Nat.mul_le_mul_right _ hw.1
+    simp only [lengthsFit, Bool.and_eq_true, decide_eq_true_eq]
+    exact ⟨by omega, lengthsFit_of_metal t hw.2 (by omega)⟩
+  | .struct ms, hw, hb => by
+    simp only [wf] at hw
+    simp only [lengthsFit]
+    cases ms with
+    | nil => rfl
+    | cons t ts =>
+      simp only [size] at hb
+      have h3 := @le_roundUp (endOf .metal (.cons t ts) 0) (alignMax .metal (.cons t ts)) (alignMax_pos _ _)
+      exact lengthsFitAll_of_metal (.cons t ts) 0 hw (by omega)
+theorem lengthsFitAll_of_metal : ∀ (ts : Tys) (c : Nat), wfAll ts = true → endOf .metal ts c ≤ u32Max →
+    lengthsFitAll ts = true
+  | .nil, _, _, _ => rfl
+  | .cons t ts, c, hw, hb => by
+    simp only [wfAll, Bool.and_eq_true] at hw
+    simp only [endOf] at hb
+    have h1 := le_endOf .metal ts (roundUp c (align .metal t) + size .metal t) hw.2
+    simp only [lengthsFitAll, Bool.and_eq_true]
+    exact ⟨lengthsFit_of_metal t hw.1 (by omega), lengthsFitAll_of_metal ts _ hw.2 hb⟩
+end
 
 
 theorem addU32_ok {a b c : Nat} (h : addU32 a b = .ok c) : c = a + b := by
   unfold addU32 at h; split at h
   · cases h; rfl
   · cases h
+
+theorem get_empty (m : Mode) : get m (.struct .nil) = .ok ⟨emptySize m, 1⟩ := by
+  cases m <;> rfl
+
+theorem length_cons_ne (t : Ty) (ts : Tys) : (Tys.cons t ts).length ≠ 0 := by
+  simp [Tys.length]
+
+theorem emptyFix_cons (m : Mode) (t : Ty) (ts : Tys) (z : Nat) : emptyFix m (Tys.cons t ts).length z = z := by
+  cases m
+  · rfl
+  · simp only [emptyFix, length_cons_ne, if_false]
 
 mutual
 /-- `get_type_layout` returns the reference size and alignment of every type of the grid -/
@@ -384,29 +510,32 @@ theorem get_spec (m : Mode) : ∀ (t : Ty) (l : Layout), wf t = true → get m t
       · split at h
         · rename_i z hz
           cases h
-          have := mulU32_ok hz
+          have := mulU32?_ok hz
           refine ⟨?_, ha⟩
           simp only [size]
           rw [roundUp_of_mod_zero (align_pos m t hw.2) (size_mod_align m t hw.2), this, hs, Nat.mul_comm]
         · cases h
       · cases h
-  | .struct ms, l, hw, h => by
-    simp only [wf, Bool.and_eq_true] at hw
+  | .struct .nil, l, _, h => by
+    rw [get_empty] at h; cases h; exact ⟨rfl, rfl⟩
+  | .struct (.cons t ts), l, hw, h => by
+    simp only [wf] at hw
     simp only [Model.Layout.get] at h
     split at h
     · cases h
     · rename_i l' hl'
-      obtain ⟨hs, ha⟩ := getMembers_spec m ms ⟨structInit.1, structInit.2⟩ l' hw.2 (by decide) hl'
-      have ha' : l'.align = alignMax m ms := by
+      obtain ⟨hs, ha⟩ := getMembers_spec m (.cons t ts) ⟨structInit.1, structInit.2⟩ l' hw (by decide) hl'
+      have ha' : l'.align = alignMax m (.cons t ts) := by
         rw [ha]
-        have := alignMax_pos m ms
-        show max 1 (alignMax m ms) = alignMax m ms
+        have := alignMax_pos m (.cons t ts)
+        show max 1 (alignMax m (.cons t ts)) = alignMax m (.cons t ts)
         omega
       rw [final_ops_pinned] at h
+      simp only [emptyFix_cons] at h
       split at h
       · rename_i z hz
         cases h
-        have := nextMultipleOf_ok (by rw [ha']; exact alignMax_pos m ms) hz
+        have := (nextMultipleOf?_ok hz).2
         simp only [size, align]
         rw [this, hs, ha']
         exact ⟨rfl, rfl⟩
@@ -429,8 +558,7 @@ theorem getMembers_spec (m : Mode) : ∀ (ts : Tys) (acc l : Layout), wfAll ts =
       split at h
       · cases h
       · rename_i acc' hacc'
-        have hpos : 0 < ml.align := by rw [ha]; exact align_pos m t hw.1
-        obtain ⟨e1, e2⟩ := memberStep_ok hpos hacc'
+        obtain ⟨_, e1, e2⟩ := memberStep_ok hacc'
         obtain ⟨r1, r2⟩ := getMembers_spec m ts acc' l hw.2 (by rw [e2]; omega) h
         simp only [endOf, alignMax]
         rw [r1, r2, e1, e2, ha, hs]
@@ -438,75 +566,78 @@ theorem getMembers_spec (m : Mode) : ∀ (ts : Tys) (acc l : Layout), wfAll ts =
 end
 
 mutual
-/-- `get_type_layout` neither panics nor gives up on a type of the grid whose reference size fits `u32` -/
-theorem get_total (m : Mode) : ∀ t : Ty, wf t = true → size m t ≤ u32Max →
+/-- `get_type_layout` neither panics nor gives up on a type of the grid whose reference size and array lengths
+    fit `u32` -/
+theorem get_total (m : Mode) : ∀ t : Ty, wf t = true → lengthsFit t = true → size m t ≤ u32Max →
     get m t = .ok ⟨size m t, align m t⟩
-  | .scalar s, hw, _ => by
+  | .scalar s, hw, _, _ => by
     simp only [wf] at hw
     exact get_scalar m s hw
-  | .vec s n, hw, _ => by
+  | .vec s n, hw, _, _ => by
     simp only [wf, Bool.and_eq_true, decide_eq_true_eq] at hw
     exact get_vec m s n hw.1 hw.2
-  | .enum u, hw, _ => by
+  | .enum u, hw, _, _ => by
     simp only [wf] at hw
     exact get_enum m u hw
-  | .other _, hw, _ => by simp [wf] at hw
-  | .arr t n, hw, hb => by
+  | .other _, hw, _, _ => by simp [wf] at hw
+  | .arr t n, hw, hl, hb => by
     simp only [wf, Bool.and_eq_true, decide_eq_true_eq] at hw
+    simp only [lengthsFit, Bool.and_eq_true, decide_eq_true_eq] at hl
     simp only [size] at hb
     have hmod := roundUp_of_mod_zero (align_pos m t hw.2) (size_mod_align m t hw.2)
     rw [hmod] at hb
-    have hpos : 0 < size m t := Nat.lt_of_lt_of_le (leaf_pos t hw.2) (leaf_le_size m t hw.2)
     have h1 : 1 * size m t ≤ n * size m t := Nat.mul_le_mul_right _ hw.1
-    have h2 : n * 1 ≤ n * size m t := Nat.mul_le_mul_left _ (by omega)
-    have g := get_total m t hw.2 (by omega)
+    have g := get_total m t hw.2 hl.2 (by omega)
     simp only [Model.Layout.get, g]
     rw [array_ops_pinned]
-    have hn : n ≤ u32Max := by omega
+    have hn : n ≤ u32Max := hl.1
     have hm : size m t * n ≤ u32Max := by rw [Nat.mul_comm]; exact hb
-    simp only [hn, if_true, mulU32, size, align, hmod, Nat.mul_comm, hb]
-  | .struct ms, hw, hb => by
-    simp only [wf, Bool.and_eq_true] at hw
+    simp only [hn, if_true, mulU32?, size, align, hmod, Nat.mul_comm, hb]
+  | .struct .nil, _, _, _ => get_empty m
+  | .struct (.cons t ts), hw, hl, hb => by
+    simp only [wf] at hw
+    simp only [lengthsFit] at hl
     simp only [size] at hb
-    have r := @le_roundUp (endOf m ms 0) (alignMax m ms) (alignMax_pos m ms)
-    have g := getMembers_total m ms ⟨structInit.1, structInit.2⟩ hw.2 (by show endOf m ms 0 ≤ u32Max; omega)
-      (by decide)
-    have ha : max (structInit.2) (alignMax m ms) = alignMax m ms := by
-      have := alignMax_pos m ms
-      show max 1 (alignMax m ms) = alignMax m ms
+    have r := @le_roundUp (endOf m (.cons t ts) 0) (alignMax m (.cons t ts)) (alignMax_pos m _)
+    have g := getMembers_total m (.cons t ts) ⟨structInit.1, structInit.2⟩ hw hl
+      (by show endOf m (.cons t ts) 0 ≤ u32Max; omega) (by decide)
+    have ha : max (structInit.2) (alignMax m (.cons t ts)) = alignMax m (.cons t ts) := by
+      have := alignMax_pos m (.cons t ts)
+      show max 1 (alignMax m (.cons t ts)) = alignMax m (.cons t ts)
       omega
     simp only [Model.Layout.get, g]
     rw [final_ops_pinned]
-    simp only [ha]
+    simp only [emptyFix_cons, ha]
     have e0 : structInit.1 = 0 := rfl
-    rw [e0, nextMultipleOf_succeeds (alignMax_pos m ms) hb]
+    rw [e0, nextMultipleOf?_succeeds (alignMax_pos m _) hb]
     rfl
-theorem getMembers_total (m : Mode) : ∀ (ts : Tys) (acc : Layout), wfAll ts = true →
+theorem getMembers_total (m : Mode) : ∀ (ts : Tys) (acc : Layout), wfAll ts = true → lengthsFitAll ts = true →
     endOf m ts acc.size ≤ u32Max → 1 ≤ acc.align →
     getMembers m ts acc = .ok ⟨endOf m ts acc.size, max acc.align (alignMax m ts)⟩
-  | .nil, acc, _, _, ha => by
+  | .nil, acc, _, _, _, ha => by
     simp only [getMembers, endOf, alignMax]
     have : max acc.align 1 = acc.align := by omega
     rw [this]
-  | .cons t ts, acc, hw, hb, ha => by
+  | .cons t ts, acc, hw, hl, hb, ha => by
     simp only [wfAll, Bool.and_eq_true] at hw
+    simp only [lengthsFitAll, Bool.and_eq_true] at hl
     simp only [endOf] at hb
     have e1 := le_endOf m ts (roundUp acc.size (align m t) + size m t) hw.2
     have r1 := @le_roundUp acc.size (align m t) (align_pos m t hw.1)
-    have g := get_total m t hw.1 (by omega)
+    have g := get_total m t hw.1 hl.1 (by omega)
     have hstep := @memberStep_succeeds acc ⟨size m t, align m t⟩ (align_pos m t hw.1) (by simp only []; omega)
     have g2 := getMembers_total m ts
-      ⟨roundUp acc.size (align m t) + size m t, max acc.align (align m t)⟩ hw.2 hb (by simp only []; omega)
+      ⟨roundUp acc.size (align m t) + size m t, max acc.align (align m t)⟩ hw.2 hl.2 hb (by simp only []; omega)
     simp only [getMembers, g]; rw [member_ops_pinned, hstep]
     simp only [g2, endOf, alignMax, Nat.max_assoc]
 end
 
 /-- the member loop body of `offsets_match` in the pinned source -/
 def memberOff (lh lm : Layout) (rec : Except Err Bool) (ch cm : Nat) : Except Err Flow :=
-  match nextMultipleOf ch lh.align with
+  match nextMultipleOf? ch lh.align with
   | .error e => .error e
   | .ok oh =>
-    match nextMultipleOf cm lm.align with
+    match nextMultipleOf? cm lm.align with
     | .error e => .error e
     | .ok om =>
       if oh ≠ om then .ok (.ret false) else
@@ -514,21 +645,21 @@ def memberOff (lh lm : Layout) (rec : Except Err Bool) (ch cm : Nat) : Except Er
       | .error e => .error e
       | .ok false => .ok (.ret false)
       | .ok true =>
-        match addU32 oh lh.size with
+        match addU32? oh lh.size with
         | .error e => .error e
         | .ok ch' =>
-          match addU32 om lm.size with
+          match addU32? om lm.size with
           | .error e => .error e
           | .ok cm' => .ok (.next ⟨ch', cm', lh, lm⟩)
 
 theorem member_off_pinned (lh lm d1 d2 : Layout) (rec : Except Err Bool) (ch cm : Nat) :
     runOff (.ok lh) (.ok lm) rec 0 offsetsMemberOps ⟨ch, cm, d1, d2⟩ = memberOff lh lm rec ch cm := by
   simp only [offsetsMemberOps, runOff, offStep, memberOff]
-  cases nextMultipleOf ch lh.align with
+  cases nextMultipleOf? ch lh.align with
   | error e => rfl
   | ok oh =>
     simp only []
-    cases nextMultipleOf cm lm.align with
+    cases nextMultipleOf? cm lm.align with
     | error e => rfl
     | ok om =>
       simp only []
@@ -542,11 +673,11 @@ theorem member_off_pinned (lh lm d1 d2 : Layout) (rec : Except Err Bool) (ch cm 
           | false => rfl
           | true =>
             simp only []
-            cases addU32 oh lh.size with
+            cases addU32? oh lh.size with
             | error e => rfl
             | ok ch' =>
               simp only []
-              cases addU32 oh lm.size with
+              cases addU32? oh lm.size with
               | error e => rfl
               | ok cm' => rfl
       · simp only [ne_eq, hne, not_false_eq_true, if_true]
@@ -555,10 +686,10 @@ theorem member_off_pinned (lh lm d1 d2 : Layout) (rec : Except Err Bool) (ch cm 
 def arrayOff (lh lm : Layout) (rec : Except Err Bool) (n : Nat) : Except Err Bool :=
   if n = 0 then .ok true else
   if n > 1 then
-    match nextMultipleOf lh.size lh.align with
+    match nextMultipleOf? lh.size lh.align with
     | .error e => .error e
     | .ok a =>
-      match nextMultipleOf lm.size lm.align with
+      match nextMultipleOf? lm.size lm.align with
       | .error e => .error e
       | .ok b => if a ≠ b then .ok false else rec
   else rec
@@ -571,11 +702,11 @@ theorem array_off_pinned (lh lm : Layout) (rec : Except Err Bool) (n : Nat) (s0 
   simp only [offsetsArrayOps, runOff, offStep, arrayOff, hn, if_false]
   by_cases h1 : n > 1
   · simp only [h1, if_true]
-    cases nextMultipleOf lh.size lh.align with
+    cases nextMultipleOf? lh.size lh.align with
     | error e => rfl
     | ok a =>
       simp only []
-      cases nextMultipleOf lm.size lm.align with
+      cases nextMultipleOf? lm.size lm.align with
       | error e => rfl
       | ok b =>
         simp only []
@@ -624,8 +755,8 @@ theorem memberOff_ret {lh lm : Layout} {rec : Except Err Bool} {ch cm : Nat} {b 
 
 theorem memberOff_next {lh lm : Layout} {rec : Except Err Bool} {ch cm : Nat} {s : OffSt}
     (h : memberOff lh lm rec ch cm = .ok (.next s)) :
-    ∃ o, nextMultipleOf ch lh.align = .ok o ∧ nextMultipleOf cm lm.align = .ok o ∧
-      rec = .ok true ∧ addU32 o lh.size = .ok s.ch ∧ addU32 o lm.size = .ok s.cm := by
+    ∃ o, nextMultipleOf? ch lh.align = .ok o ∧ nextMultipleOf? cm lm.align = .ok o ∧
+      rec = .ok true ∧ addU32? o lh.size = .ok s.ch ∧ addU32? o lm.size = .ok s.cm := by
   unfold memberOff at h
   split at h
   · cases h
@@ -653,8 +784,8 @@ theorem memberOff_next {lh lm : Layout} {rec : Except Err Bool} {ch cm : Nat} {s
 
 theorem arrayOff_true {lh lm : Layout} {rec : Except Err Bool} {n : Nat} (hn : n ≠ 0)
     (h : arrayOff lh lm rec n = .ok true) :
-    rec = .ok true ∧ (n ≤ 1 ∨ ∃ a, nextMultipleOf lh.size lh.align = .ok a ∧
-      nextMultipleOf lm.size lm.align = .ok a) := by
+    rec = .ok true ∧ (n ≤ 1 ∨ ∃ a, nextMultipleOf? lh.size lh.align = .ok a ∧
+      nextMultipleOf? lm.size lm.align = .ok a) := by
   simp only [arrayOff, hn, if_false] at h
   split at h
   · split at h
@@ -678,9 +809,9 @@ theorem offsetsMatch_sound : ∀ t : Ty, wf t = true → offsetsMatch t = .ok tr
   | .enum _, _, _ => rfl
   | .other _, _, _ => rfl
   | .struct ms, hw, h => by
-    simp only [wf, Bool.and_eq_true] at hw
+    simp only [wf] at hw
     simp only [offsetsMatch] at h
-    obtain ⟨o, g⟩ := offsetsMembers_sound ms 0 0 hw.2 h
+    obtain ⟨o, g⟩ := offsetsMembers_sound ms 0 0 hw h
     simp only [agreeIn, Bool.and_eq_true, beq_iff_eq]
     exact ⟨o, g⟩
   | .arr t n, hw, h => by
@@ -708,8 +839,8 @@ theorem offsetsMatch_sound : ∀ t : Ty, wf t = true → offsetsMatch t = .ok tr
           rcases hs with hs | ⟨a, ha, hb⟩
           · exact Or.inl hs
           · right
-            have ea := nextMultipleOf_ok (by rw [ah]; exact align_pos _ t hw.2) ha
-            have eb := nextMultipleOf_ok (by rw [am]; exact align_pos _ t hw.2) hb
+            have ea := (nextMultipleOf?_ok ha).2
+            have eb := (nextMultipleOf?_ok hb).2
             simp only [stride]
             rw [← sh, ← sm, ← ah, ← am, ← ea, ← eb]
 theorem offsetsMembers_sound : ∀ (ts : Tys) (ch cm : Nat), wfAll ts = true →
@@ -740,10 +871,10 @@ theorem offsetsMembers_sound : ∀ (ts : Tys) (ch cm : Nat), wfAll ts = true →
           | next s =>
             simp only [] at h
             obtain ⟨o, hoh, hom, hrec, hch, hcm⟩ := memberOff_next hmo
-            have eh := nextMultipleOf_ok (by rw [ah]; exact align_pos _ t hw.1) hoh
-            have em := nextMultipleOf_ok (by rw [am]; exact align_pos _ t hw.1) hom
-            have c1 := addU32_ok hch
-            have c2 := addU32_ok hcm
+            have eh := (nextMultipleOf?_ok hoh).2
+            have em := (nextMultipleOf?_ok hom).2
+            have c1 := addU32?_ok hch
+            have c2 := addU32?_ok hcm
             obtain ⟨og, g⟩ := offsetsMembers_sound ts s.ch s.cm hw.2 h
             simp only [offsets, agreeInAll, Bool.and_eq_true]
             rw [← ah, ← am, ← eh, ← sh, ← sm, ← c1]
@@ -752,36 +883,37 @@ theorem offsetsMembers_sound : ∀ (ts : Tys) (ch cm : Nat), wfAll ts = true →
 end
 
 theorem memberOff_succeeds {lh lm : Layout} {rec : Except Err Bool} {ch cm o a b : Nat}
-    (h1 : nextMultipleOf ch lh.align = .ok o) (h2 : nextMultipleOf cm lm.align = .ok o)
-    (h3 : rec = .ok true) (h4 : addU32 o lh.size = .ok a) (h5 : addU32 o lm.size = .ok b) :
+    (h1 : nextMultipleOf? ch lh.align = .ok o) (h2 : nextMultipleOf? cm lm.align = .ok o)
+    (h3 : rec = .ok true) (h4 : addU32? o lh.size = .ok a) (h5 : addU32? o lm.size = .ok b) :
     memberOff lh lm rec ch cm = .ok (.next ⟨a, b, lh, lm⟩) := by
   unfold memberOff
   simp only [h1, h2, h3, h4, h5, ne_eq, not_true_eq_false, if_false]
 
-theorem addU32_succeeds {a b : Nat} (h : a + b ≤ u32Max) : addU32 a b = .ok (a + b) := by
-  unfold addU32; simp only [h, if_true]
-
-theorem size_pos (m : Mode) (t : Ty) (hw : wf t = true) : 0 < size m t :=
-  Nat.lt_of_lt_of_le (leaf_pos t hw) (leaf_le_size m t hw)
+/-- the end of the last member never exceeds the struct's size -/
+theorem endOf_le_size (m : Mode) (ms : Tys) : endOf m ms 0 ≤ size m (.struct ms) := by
+  cases ms with
+  | nil => simp [endOf]
+  | cons t ts => simp only [size]; exact le_roundUp (alignMax_pos m _)
 
 mutual
 /-- `offsets_match` accepts whenever the two reference layouts place every field identically -/
-theorem offsetsMatch_complete : ∀ t : Ty, wf t = true → size .hlsl t ≤ u32Max → size .metal t ≤ u32Max →
-    agreeIn t = true → offsetsMatch t = .ok true
-  | .scalar _, _, _, _, _ => rfl
-  | .vec _ _, _, _, _, _ => rfl
-  | .enum _, _, _, _, _ => rfl
-  | .other _, _, _, _, _ => rfl
-  | .struct ms, hw, bh, bm, ha => by
-    simp only [wf, Bool.and_eq_true] at hw
+theorem offsetsMatch_complete : ∀ t : Ty, wf t = true → lengthsFit t = true → size .hlsl t ≤ u32Max →
+    size .metal t ≤ u32Max → agreeIn t = true → offsetsMatch t = .ok true
+  | .scalar _, _, _, _, _, _ => rfl
+  | .vec _ _, _, _, _, _, _ => rfl
+  | .enum _, _, _, _, _, _ => rfl
+  | .other _, _, _, _, _, _ => rfl
+  | .struct ms, hw, hl, bh, bm, ha => by
+    simp only [wf] at hw
+    simp only [lengthsFit] at hl
     simp only [agreeIn, Bool.and_eq_true, beq_iff_eq] at ha
-    simp only [size] at bh bm
-    have rh := @le_roundUp (endOf .hlsl ms 0) (alignMax .hlsl ms) (alignMax_pos _ ms)
-    have rm := @le_roundUp (endOf .metal ms 0) (alignMax .metal ms) (alignMax_pos _ ms)
+    have rh := endOf_le_size .hlsl ms
+    have rm := endOf_le_size .metal ms
     simp only [offsetsMatch]
-    exact offsetsMembers_complete ms 0 0 hw.2 (by omega) (by omega) ha.1 ha.2
-  | .arr t n, hw, bh, bm, ha => by
+    exact offsetsMembers_complete ms 0 0 hw hl (by omega) (by omega) ha.1 ha.2
+  | .arr t n, hw, hl, bh, bm, ha => by
     simp only [wf, Bool.and_eq_true, decide_eq_true_eq] at hw
+    simp only [lengthsFit, Bool.and_eq_true, decide_eq_true_eq] at hl
     simp only [agreeIn, Bool.or_eq_true, Bool.and_eq_true, beq_iff_eq, decide_eq_true_eq] at ha
     have hn : n ≠ 0 := by omega
     rcases ha with h0 | ⟨hs, hin⟩
@@ -793,9 +925,9 @@ theorem offsetsMatch_complete : ∀ t : Ty, wf t = true → size .hlsl t ≤ u32
       rw [mm] at bm
       have h1 : 1 * size .hlsl t ≤ n * size .hlsl t := Nat.mul_le_mul_right _ hw.1
       have h2 : 1 * size .metal t ≤ n * size .metal t := Nat.mul_le_mul_right _ hw.1
-      have gh := get_total .hlsl t hw.2 (by omega)
-      have gm := get_total .metal t hw.2 (by omega)
-      have hrec := offsetsMatch_complete t hw.2 (by omega) (by omega) hin
+      have gh := get_total .hlsl t hw.2 hl.2 (by omega)
+      have gm := get_total .metal t hw.2 hl.2 (by omega)
+      have hrec := offsetsMatch_complete t hw.2 hl.2 (by omega) (by omega) hin
       simp only [offsetsMatch, gh, gm]
       rw [array_off_pinned _ _ _ n _ hn]
       have : arrayOff ⟨size .hlsl t, align .hlsl t⟩ ⟨size .metal t, align .metal t⟩ (offsetsMatch t) n
@@ -808,45 +940,46 @@ theorem offsetsMatch_complete : ∀ t : Ty, wf t = true → size .hlsl t ≤ u32
             · omega
             · exact hs
           simp only [stride, mh, mm] at hst
-          rw [nextMultipleOf_succeeds (align_pos _ t hw.2) (by rw [mh]; omega),
-            nextMultipleOf_succeeds (align_pos _ t hw.2) (by rw [mm]; omega)]
+          rw [nextMultipleOf?_succeeds (align_pos _ t hw.2) (by rw [mh]; omega),
+            nextMultipleOf?_succeeds (align_pos _ t hw.2) (by rw [mm]; omega)]
           rw [mh, mm]
           simp only [hst, ne_eq, not_true_eq_false, if_false]
         · simp only [hgt, if_false]
       rw [this]
-theorem offsetsMembers_complete : ∀ (ts : Tys) (ch cm : Nat), wfAll ts = true →
+theorem offsetsMembers_complete : ∀ (ts : Tys) (ch cm : Nat), wfAll ts = true → lengthsFitAll ts = true →
     endOf .hlsl ts ch ≤ u32Max → endOf .metal ts cm ≤ u32Max →
     offsets .hlsl ts ch = offsets .metal ts cm → agreeInAll ts = true →
     offsetsMembers ts ch cm = .ok true
-  | .nil, _, _, _, _, _, _, _ => rfl
-  | .cons t ts, ch, cm, hw, bh, bm, ho, ha => by
+  | .nil, _, _, _, _, _, _, _, _ => rfl
+  | .cons t ts, ch, cm, hw, hl, bh, bm, ho, ha => by
     simp only [wfAll, Bool.and_eq_true] at hw
+    simp only [lengthsFitAll, Bool.and_eq_true] at hl
     simp only [endOf] at bh bm
     simp only [offsets, List.cons.injEq] at ho
     simp only [agreeInAll, Bool.and_eq_true] at ha
     have eh := le_endOf .hlsl ts (roundUp ch (align .hlsl t) + size .hlsl t) hw.2
     have em := le_endOf .metal ts (roundUp cm (align .metal t) + size .metal t) hw.2
-    have gh := get_total .hlsl t hw.1 (by omega)
-    have gm := get_total .metal t hw.1 (by omega)
-    have hrec := offsetsMatch_complete t hw.1 (by omega) (by omega) ha.1
-    have n1 := @nextMultipleOf_succeeds ch (align .hlsl t) (align_pos _ t hw.1) (by omega)
-    have n2 := @nextMultipleOf_succeeds cm (align .metal t) (align_pos _ t hw.1) (by omega)
+    have gh := get_total .hlsl t hw.1 hl.1 (by omega)
+    have gm := get_total .metal t hw.1 hl.1 (by omega)
+    have hrec := offsetsMatch_complete t hw.1 hl.1 (by omega) (by omega) ha.1
+    have n1 := @nextMultipleOf?_succeeds ch (align .hlsl t) (align_pos _ t hw.1) (by omega)
+    have n2 := @nextMultipleOf?_succeeds cm (align .metal t) (align_pos _ t hw.1) (by omega)
     rw [← ho.1] at n2
-    have a1 := @addU32_succeeds (roundUp ch (align .hlsl t)) (size .hlsl t) (by omega)
-    have a2 := @addU32_succeeds (roundUp ch (align .hlsl t)) (size .metal t) (by rw [ho.1]; omega)
+    have a1 := @addU32?_succeeds (roundUp ch (align .hlsl t)) (size .hlsl t) (by omega)
+    have a2 := @addU32?_succeeds (roundUp ch (align .hlsl t)) (size .metal t) (by rw [ho.1]; omega)
     have hm := @memberOff_succeeds ⟨size .hlsl t, align .hlsl t⟩ ⟨size .metal t, align .metal t⟩
       (offsetsMatch t) ch cm _ _ _ n1 n2 hrec a1 a2
     simp only [offsetsMembers, gh, gm]
     rw [member_off_pinned, hm]
     simp only []
-    have ih := offsetsMembers_complete ts _ _ hw.2 bh bm ho.2 ha.2
+    have ih := offsetsMembers_complete ts _ _ hw.2 hl.2 bh bm ho.2 ha.2
     rw [← ho.1] at ih
     exact ih
 end
 
 theorem memberOff_eval {lh lm : Layout} {b : Bool} {ch cm oh om x y : Nat}
-    (h1 : nextMultipleOf ch lh.align = .ok oh) (h2 : nextMultipleOf cm lm.align = .ok om)
-    (h4 : addU32 oh lh.size = .ok x) (h5 : addU32 om lm.size = .ok y) :
+    (h1 : nextMultipleOf? ch lh.align = .ok oh) (h2 : nextMultipleOf? cm lm.align = .ok om)
+    (h4 : addU32? oh lh.size = .ok x) (h5 : addU32? om lm.size = .ok y) :
     memberOff lh lm (.ok b) ch cm =
       if oh ≠ om then .ok (.ret false) else if b then .ok (.next ⟨x, y, lh, lm⟩) else .ok (.ret false) := by
   unfold memberOff
@@ -860,21 +993,22 @@ theorem memberOff_eval {lh lm : Layout} {b : Bool} {ch cm oh om x y : Nat}
 
 mutual
 /-- `offsets_match` neither panics nor returns `None` on a type of the grid whose sizes fit `u32` -/
-theorem offsetsMatch_total : ∀ t : Ty, wf t = true → size .hlsl t ≤ u32Max → size .metal t ≤ u32Max →
-    ∃ b, offsetsMatch t = .ok b
-  | .scalar _, _, _, _ => ⟨true, rfl⟩
-  | .vec _ _, _, _, _ => ⟨true, rfl⟩
-  | .enum _, _, _, _ => ⟨true, rfl⟩
-  | .other _, _, _, _ => ⟨true, rfl⟩
-  | .struct ms, hw, bh, bm => by
-    simp only [wf, Bool.and_eq_true] at hw
-    simp only [size] at bh bm
-    have rh := @le_roundUp (endOf .hlsl ms 0) (alignMax .hlsl ms) (alignMax_pos _ ms)
-    have rm := @le_roundUp (endOf .metal ms 0) (alignMax .metal ms) (alignMax_pos _ ms)
+theorem offsetsMatch_total : ∀ t : Ty, wf t = true → lengthsFit t = true → size .hlsl t ≤ u32Max →
+    size .metal t ≤ u32Max → ∃ b, offsetsMatch t = .ok b
+  | .scalar _, _, _, _, _ => ⟨true, rfl⟩
+  | .vec _ _, _, _, _, _ => ⟨true, rfl⟩
+  | .enum _, _, _, _, _ => ⟨true, rfl⟩
+  | .other _, _, _, _, _ => ⟨true, rfl⟩
+  | .struct ms, hw, hl, bh, bm => by
+    simp only [wf] at hw
+    simp only [lengthsFit] at hl
+    have rh := endOf_le_size .hlsl ms
+    have rm := endOf_le_size .metal ms
     simp only [offsetsMatch]
-    exact offsetsMembers_total ms 0 0 hw.2 (by omega) (by omega)
-  | .arr t n, hw, bh, bm => by
+    exact offsetsMembers_total ms 0 0 hw hl (by omega) (by omega)
+  | .arr t n, hw, hl, bh, bm => by
     simp only [wf, Bool.and_eq_true, decide_eq_true_eq] at hw
+    simp only [lengthsFit, Bool.and_eq_true, decide_eq_true_eq] at hl
     have hn : n ≠ 0 := by omega
     simp only [size] at bh bm
     have mh := roundUp_of_mod_zero (align_pos .hlsl t hw.2) (size_mod_align .hlsl t hw.2)
@@ -883,9 +1017,9 @@ theorem offsetsMatch_total : ∀ t : Ty, wf t = true → size .hlsl t ≤ u32Max
     rw [mm] at bm
     have h1 : 1 * size .hlsl t ≤ n * size .hlsl t := Nat.mul_le_mul_right _ hw.1
     have h2 : 1 * size .metal t ≤ n * size .metal t := Nat.mul_le_mul_right _ hw.1
-    have gh := get_total .hlsl t hw.2 (by omega)
-    have gm := get_total .metal t hw.2 (by omega)
-    obtain ⟨b, hrec⟩ := offsetsMatch_total t hw.2 (by omega) (by omega)
+    have gh := get_total .hlsl t hw.2 hl.2 (by omega)
+    have gm := get_total .metal t hw.2 hl.2 (by omega)
+    obtain ⟨b, hrec⟩ := offsetsMatch_total t hw.2 hl.2 (by omega) (by omega)
     simp only [offsetsMatch, gh, gm]
     rw [array_off_pinned _ _ _ n _ hn]
     have : ∃ c, arrayOff ⟨size .hlsl t, align .hlsl t⟩ ⟨size .metal t, align .metal t⟩ (offsetsMatch t) n
@@ -893,28 +1027,29 @@ theorem offsetsMatch_total : ∀ t : Ty, wf t = true → size .hlsl t ≤ u32Max
       simp only [arrayOff, hn, if_false, hrec]
       by_cases hgt : n > 1
       · simp only [hgt, if_true]
-        rw [nextMultipleOf_succeeds (align_pos _ t hw.2) (by rw [mh]; omega),
-          nextMultipleOf_succeeds (align_pos _ t hw.2) (by rw [mm]; omega)]
+        rw [nextMultipleOf?_succeeds (align_pos _ t hw.2) (by rw [mh]; omega),
+          nextMultipleOf?_succeeds (align_pos _ t hw.2) (by rw [mm]; omega)]
         simp only []
         split <;> exact ⟨_, rfl⟩
       · simp only [hgt, if_false]; exact ⟨_, rfl⟩
     obtain ⟨c, hc⟩ := this
     rw [hc]; exact ⟨c, rfl⟩
-theorem offsetsMembers_total : ∀ (ts : Tys) (ch cm : Nat), wfAll ts = true →
+theorem offsetsMembers_total : ∀ (ts : Tys) (ch cm : Nat), wfAll ts = true → lengthsFitAll ts = true →
     endOf .hlsl ts ch ≤ u32Max → endOf .metal ts cm ≤ u32Max → ∃ b, offsetsMembers ts ch cm = .ok b
-  | .nil, _, _, _, _, _ => ⟨true, rfl⟩
-  | .cons t ts, ch, cm, hw, bh, bm => by
+  | .nil, _, _, _, _, _, _ => ⟨true, rfl⟩
+  | .cons t ts, ch, cm, hw, hl, bh, bm => by
     simp only [wfAll, Bool.and_eq_true] at hw
+    simp only [lengthsFitAll, Bool.and_eq_true] at hl
     simp only [endOf] at bh bm
     have eh := le_endOf .hlsl ts (roundUp ch (align .hlsl t) + size .hlsl t) hw.2
     have em := le_endOf .metal ts (roundUp cm (align .metal t) + size .metal t) hw.2
-    have gh := get_total .hlsl t hw.1 (by omega)
-    have gm := get_total .metal t hw.1 (by omega)
-    obtain ⟨b, hrec⟩ := offsetsMatch_total t hw.1 (by omega) (by omega)
-    have n1 := @nextMultipleOf_succeeds ch (align .hlsl t) (align_pos _ t hw.1) (by omega)
-    have n2 := @nextMultipleOf_succeeds cm (align .metal t) (align_pos _ t hw.1) (by omega)
-    have a1 := @addU32_succeeds (roundUp ch (align .hlsl t)) (size .hlsl t) (by omega)
-    have a2 := @addU32_succeeds (roundUp cm (align .metal t)) (size .metal t) (by omega)
+    have gh := get_total .hlsl t hw.1 hl.1 (by omega)
+    have gm := get_total .metal t hw.1 hl.1 (by omega)
+    obtain ⟨b, hrec⟩ := offsetsMatch_total t hw.1 hl.1 (by omega) (by omega)
+    have n1 := @nextMultipleOf?_succeeds ch (align .hlsl t) (align_pos _ t hw.1) (by omega)
+    have n2 := @nextMultipleOf?_succeeds cm (align .metal t) (align_pos _ t hw.1) (by omega)
+    have a1 := @addU32?_succeeds (roundUp ch (align .hlsl t)) (size .hlsl t) (by omega)
+    have a2 := @addU32?_succeeds (roundUp cm (align .metal t)) (size .metal t) (by omega)
     have hm := @memberOff_eval ⟨size .hlsl t, align .hlsl t⟩ ⟨size .metal t, align .metal t⟩ b
       ch cm _ _ _ _ n1 n2 a1 a2
     simp only [offsetsMembers, gh, gm]
@@ -924,7 +1059,7 @@ theorem offsetsMembers_total : ∀ (ts : Tys) (ch cm : Nat), wfAll ts = true →
       · simp only [hne, ne_eq, not_true_eq_false, if_false, Bool.false_eq_true]
         exact ⟨false, rfl⟩
       · simp only [hne, ne_eq, not_true_eq_false, if_false, if_true]
-        exact offsetsMembers_total ts _ _ hw.2 (by rw [hne] at bh; exact bh) bm
+        exact offsetsMembers_total ts _ _ hw.2 hl.2 (by rw [hne] at bh; exact bh) bm
     · simp only [ne_eq, hne, not_false_eq_true, if_true]
       exact ⟨false, rfl⟩
 end
@@ -1000,13 +1135,14 @@ theorem checkOne_spec {t : Ty} {r : Option (Layout × Layout)} (hw : wf t = true
 /-- no panic, no "unknown size" on the grid -/
 theorem checkOne_total (t : Ty) (hw : wf t = true) (hh : size .hlsl t ≤ u32Max)
     (hm : size .metal t ≤ u32Max) : ∃ r, checkOne t = .ok r := by
-  have g1 := get_total .hlsl t hw hh
-  have g2 := get_total .metal t hw hm
+  have hl := lengthsFit_of_metal t hw hm
+  have g1 := get_total .hlsl t hw hl hh
+  have g2 := get_total .metal t hw hl hm
   have p1 := align_pos .hlsl t hw
   have p2 := align_pos .metal t hw
   have m1 := roundUp_of_mod_zero p1 (size_mod_align _ t hw)
   have m2 := roundUp_of_mod_zero p2 (size_mod_align _ t hw)
-  obtain ⟨b, hb⟩ := offsetsMatch_total t hw hh hm
+  obtain ⟨b, hb⟩ := offsetsMatch_total t hw hl hh hm
   unfold checkOne
   simp only [g1, g2]
   rw [top_ops_pinned, top_ops_pinned, nextMultipleOf_succeeds p1 (by rw [m1]; exact hh),
@@ -1020,7 +1156,7 @@ theorem checkOne_complete (t : Ty) (hw : wf t = true) (hh : size .hlsl t ≤ u32
     (hm : size .metal t ≤ u32Max) (ha : Agree t) : checkOne t = .ok none := by
   obtain ⟨r, hr⟩ := checkOne_total t hw hh hm
   obtain ⟨lh, lm, zh, zm, same, g1, g2, n1, n2, hs, rfl⟩ := checkOne_ok hr
-  have hc := offsetsMatch_complete t hw hh hm ha.2
+  have hc := offsetsMatch_complete t hw (lengthsFit_of_metal t hw hm) hh hm ha.2
   rw [hc] at hs; cases hs
   obtain ⟨s1, a1⟩ := get_spec .hlsl t lh hw g1
   obtain ⟨s2, a2⟩ := get_spec .metal t lm hw g2
@@ -1049,5 +1185,215 @@ theorem checkFrom_mismatch : ∀ (ts : List Ty) (i j : Nat) (lh lm : Layout),
       refine ⟨u, ?_, by omega, hc⟩
       have : j - i = (j - (i + 1)) + 1 := by omega
       rw [this]; simpa using hu
+
+/-! ### no panic site is left on the grid (since /repo 24ea36f the overflow sites return `None`) -/
+
+/-- the computation does not end in a panic -/
+def NoPanic {α : Type} (x : Except Err α) : Prop := ∀ msg, x ≠ .error (.panic msg)
+
+theorem noPanic_ok {α : Type} (a : α) : NoPanic (.ok a : Except Err α) := by intro msg h; cases h
+theorem noPanic_unknown {α : Type} : NoPanic (.error .unknown : Except Err α) := by intro msg h; cases h
+
+theorem memberStep_noPanic (acc ml : Layout) : NoPanic (memberStep acc ml) := by
+  intro msg h
+  unfold memberStep at h
+  split at h
+  · rename_i e he; cases h; exact nextMultipleOf?_no_panic he
+  · split at h
+    · rename_i e he; cases h; exact addU32?_no_panic he
+    · cases h
+
+mutual
+theorem get_noPanic (m : Mode) : ∀ t : Ty, wf t = true → NoPanic (get m t)
+  | .scalar s, hw => by
+    simp only [wf] at hw
+    rw [get_scalar m s hw]; exact noPanic_ok _
+  | .vec s n, hw => by
+    simp only [wf, Bool.and_eq_true, decide_eq_true_eq] at hw
+    rw [get_vec m s n hw.1 hw.2]; exact noPanic_ok _
+  | .enum u, hw => by
+    simp only [wf] at hw
+    rw [get_enum m u hw]; exact noPanic_ok _
+  | .other _, hw => by simp [wf] at hw
+  | .arr t n, hw => by
+    simp only [wf, Bool.and_eq_true, decide_eq_true_eq] at hw
+    have ih := get_noPanic m t hw.2
+    intro msg h
+    simp only [Model.Layout.get] at h
+    split at h
+    · rename_i e he; cases h; exact ih msg he
+    · rw [array_ops_pinned] at h
+      split at h
+      · split at h
+        · cases h
+        · rename_i e he; cases h; exact mulU32?_no_panic he
+      · cases h
+  | .struct .nil, _ => by rw [get_empty]; exact noPanic_ok _
+  | .struct (.cons t ts), hw => by
+    simp only [wf] at hw
+    have ih := getMembers_noPanic m (.cons t ts) ⟨structInit.1, structInit.2⟩ hw
+    intro msg h
+    simp only [Model.Layout.get] at h
+    split at h
+    · rename_i e he; cases h; exact ih msg he
+    · rw [final_ops_pinned] at h
+      split at h
+      · cases h
+      · rename_i e he; cases h; exact nextMultipleOf?_no_panic he
+theorem getMembers_noPanic (m : Mode) : ∀ (ts : Tys) (acc : Layout), wfAll ts = true →
+    NoPanic (getMembers m ts acc)
+  | .nil, acc, _ => by simp only [getMembers]; exact noPanic_ok _
+  | .cons t ts, acc, hw => by
+    simp only [wfAll, Bool.and_eq_true] at hw
+    have iht := get_noPanic m t hw.1
+    intro msg h
+    simp only [getMembers] at h
+    split at h
+    · rename_i e he; cases h; exact iht msg he
+    · rw [member_ops_pinned] at h
+      split at h
+      · rename_i e he; cases h; exact memberStep_noPanic _ _ msg he
+      · rename_i acc' _
+        exact getMembers_noPanic m ts acc' hw.2 msg h
+end
+
+theorem memberOff_noPanic (lh lm : Layout) (rec : Except Err Bool) (ch cm : Nat) (hr : NoPanic rec) :
+    NoPanic (memberOff lh lm rec ch cm) := by
+  intro msg h
+  unfold memberOff at h
+  split at h
+  · rename_i e he; cases h; exact nextMultipleOf?_no_panic he
+  · split at h
+    · rename_i e he; cases h; exact nextMultipleOf?_no_panic he
+    · split at h
+      · cases h
+      · split at h
+        · rename_i e; cases h; exact hr msg rfl
+        · cases h
+        · split at h
+          · rename_i e he; cases h; exact addU32?_no_panic he
+          · split at h
+            · rename_i e he; cases h; exact addU32?_no_panic he
+            · cases h
+
+theorem arrayOff_noPanic (lh lm : Layout) (rec : Except Err Bool) (n : Nat) (hr : NoPanic rec) :
+    NoPanic (arrayOff lh lm rec n) := by
+  intro msg h
+  unfold arrayOff at h
+  split at h
+  · cases h
+  · split at h
+    · split at h
+      · rename_i e he; cases h; exact nextMultipleOf?_no_panic he
+      · split at h
+        · rename_i e he; cases h; exact nextMultipleOf?_no_panic he
+        · split at h
+          · cases h
+          · exact hr msg h
+    · exact hr msg h
+
+mutual
+theorem offsetsMatch_noPanic : ∀ t : Ty, wf t = true → NoPanic (offsetsMatch t)
+  | .scalar _, _ => noPanic_ok _
+  | .vec _ _, _ => noPanic_ok _
+  | .enum _, _ => noPanic_ok _
+  | .other _, _ => noPanic_ok _
+  | .struct ms, hw => by
+    simp only [wf] at hw
+    simp only [offsetsMatch]
+    exact offsetsMembers_noPanic ms _ _ hw
+  | .arr t n, hw => by
+    simp only [wf, Bool.and_eq_true, decide_eq_true_eq] at hw
+    have hn : n ≠ 0 := by omega
+    have ih := offsetsMatch_noPanic t hw.2
+    intro msg h
+    simp only [offsetsMatch] at h
+    cases gh : Model.Layout.get .hlsl t with
+    | error e =>
+      rw [gh, array_off_errH e _ _ n _ hn] at h
+      cases h; exact get_noPanic .hlsl t hw.2 msg gh
+    | ok lh =>
+      cases gm : Model.Layout.get .metal t with
+      | error e =>
+        rw [gh, gm, array_off_errM lh e _ n _ hn] at h
+        cases h; exact get_noPanic .metal t hw.2 msg gm
+      | ok lm =>
+        rw [gh, gm, array_off_pinned lh lm _ n _ hn] at h
+        cases hao : arrayOff lh lm (offsetsMatch t) n with
+        | error e => rw [hao] at h; cases h; exact arrayOff_noPanic lh lm _ n ih msg hao
+        | ok b => rw [hao] at h; cases h
+theorem offsetsMembers_noPanic : ∀ (ts : Tys) (ch cm : Nat), wfAll ts = true →
+    NoPanic (offsetsMembers ts ch cm)
+  | .nil, _, _, _ => noPanic_ok _
+  | .cons t ts, ch, cm, hw => by
+    simp only [wfAll, Bool.and_eq_true] at hw
+    have iht := offsetsMatch_noPanic t hw.1
+    intro msg h
+    simp only [offsetsMembers] at h
+    cases gh : Model.Layout.get .hlsl t with
+    | error e =>
+      rw [gh, member_off_errH] at h
+      cases h; exact get_noPanic .hlsl t hw.1 msg gh
+    | ok lh =>
+      cases gm : Model.Layout.get .metal t with
+      | error e =>
+        rw [gh, gm, member_off_errM] at h
+        cases h; exact get_noPanic .metal t hw.1 msg gm
+      | ok lm =>
+        rw [gh, gm, member_off_pinned] at h
+        cases hmo : memberOff lh lm (offsetsMatch t) ch cm with
+        | error e => rw [hmo] at h; cases h; exact memberOff_noPanic lh lm _ ch cm iht msg hmo
+        | ok fl =>
+          rw [hmo] at h
+          cases fl with
+          | ret b => cases h
+          | next s => exact offsetsMembers_noPanic ts s.ch s.cm hw.2 msg h
+end
+
+/-- **no panic on the grid, whatever the sizes**: every overflow site of `get_type_layout` / `offsets_match`
+    returns `None`, the unchecked rounding of `check_layout` itself cannot overflow (a size is a multiple of its
+    alignment) -/
+theorem checkOne_noPanic (t : Ty) (hw : wf t = true) : NoPanic (checkOne t) := by
+  intro msg h
+  unfold checkOne at h
+  split at h
+  · rename_i e he; cases h; exact get_noPanic .hlsl t hw msg he
+  · rename_i lh hlh
+    split at h
+    · rename_i e he; cases h; exact get_noPanic .metal t hw msg he
+    · rename_i lm hlm
+      obtain ⟨s1, a1⟩ := get_spec .hlsl t lh hw hlh
+      obtain ⟨s2, a2⟩ := get_spec .metal t lm hw hlm
+      have p1 := align_pos .hlsl t hw
+      have p2 := align_pos .metal t hw
+      have n1 : nextMultipleOf lh.size lh.align = .ok lh.size := by
+        rw [s1, a1]
+        unfold nextMultipleOf
+        have hb : align .hlsl t ≠ 0 := by omega
+        simp only [hb, if_false, size_mod_align _ t hw, if_true]
+      have n2 : nextMultipleOf lm.size lm.align = .ok lm.size := by
+        rw [s2, a2]
+        unfold nextMultipleOf
+        have hb : align .metal t ≠ 0 := by omega
+        simp only [hb, if_false, size_mod_align _ t hw, if_true]
+      rw [top_ops_pinned, top_ops_pinned, n1, n2] at h
+      have hom : hasOffsetsMatch = true := rfl
+      simp only [hom, if_true] at h
+      split at h
+      · rename_i e he; cases h; exact offsetsMatch_noPanic t hw msg he
+      · split at h <;> cases h
+
+theorem checkFrom_noPanic : ∀ (ts : List Ty) (i : Nat), (∀ t ∈ ts, wf t = true) → ∀ msg, checkFrom i ts ≠ .panic msg
+  | [], _, _, msg => by simp [checkFrom]
+  | t :: ts, i, hw, msg => by
+    intro h
+    unfold checkFrom at h
+    split at h
+    · cases h
+    · rename_i m' hc
+      cases h
+      exact checkOne_noPanic t (hw t (List.mem_cons_self ..)) _ hc
+    · cases h
+    · exact checkFrom_noPanic ts (i + 1) (fun u hu => hw u (List.mem_cons_of_mem _ hu)) msg h
 
 end RsslVerif.Lemmas.Layout
